@@ -503,6 +503,7 @@ func (g *TxGen) GenRegistry(t *rapid.T) *RegTx {
 				w.Runtime = &nrt
 				if thresholdsChanged {
 					g.W.RtThresholdsChanged = true
+					g.W.RtThresholdsSeq++
 				}
 			}
 		}
